@@ -45,6 +45,22 @@
 //     for a parameter x of the seam's interface type, appends GEv "M" [args] to the record's extra field
 //     `trace` (most recent first) when the method is marked "record"; values returned by M (a, b = x.M(..))
 //     are extra parameters s_M_0, s_M_1.. of the translated function; a call on a nil reference is a panic.
+//     "typed" seams record GCall "M" [GNum x | GBytes b ..] (byte-slice arguments); a method with an "oracle"
+//     (result types) makes the function take o_M : list gcall -> results, applied to the trace that already
+//     contains the call (a, b := t.f.M(..) binds its components): any deterministic callee can be supplied;
+//   - p[lo:hi] of a []byte parameter (capacity taken to be the length);
+//   - several structs per config (records are emitted in dependency order; config "ignore" leaves fields such as
+//     unsafe slice headers out); fields that are slices of unsigned words ([]uint64: list N, stores wrap at the
+//     element width) and slices of structs ([]T: list of T's record; glenA / gidxA / gsetA); an lvalue may be a
+//     path recv.f[i].g[j]: reads hoist one bounds check per index, `path = e`, `path op= e`, `path++` read the
+//     element, apply the field setter and write the element back (one gset per index, innermost first);
+//     a local of struct type (the value variable of a range loop) with field reads;
+//   - `for k, x := range E` over a slice-valued path E: len(E) is taken once, x is read from the current contents
+//     at every iteration (Go reads the shared backing array); the body may not assign a slice header;
+//   - `if a || b` / `if a && b` where b needs a bounds-checked read or a call: nested ifs (Go's short circuit);
+//   - `a, b := x, y` with new variables (also as the init statement of a for loop); unary minus of a constant
+//     in a return; named bool types (config types: -1); seams on a VALUE field (config "value": no nil check),
+//     e.g. a sync.Spinlock whose Acquire / Release become events;
 // A field assignment r.f = e is `set_f_<T>_<f> r e` (one setter per field, generated after the Record).
 // Variables of inner scopes must not shadow variables of enclosing scopes (rejected).
 package main
@@ -80,6 +96,7 @@ type config struct {
 	Opaque  map[string][]string `json:"opaque"` // struct type name -> fields of interface/pointer type, modelled as "is non-nil"
 	Gres    bool                `json:"gres"`   // extended mode: results in gres (GOk | GPanic | GFuel), loops, stores, switch, int, seams
 	Seams   map[string]seamSpec `json:"seams"`  // struct type name -> the interface-typed field whose method calls are recorded as events
+	Ignore  map[string][]string `json:"ignore"` // struct type name -> fields left out of the record (never touched by the translated functions)
 }
 
 // seamSpec describes calls that leave the translated code through an interface value: t.<Field>.M(args) (or
@@ -89,11 +106,17 @@ type config struct {
 type seamMethod struct {
 	Record  bool  `json:"record"`
 	Results []int `json:"results"`
+	// Oracle: the types ("int", "error", "uint8".."uint64") of the values the method returns when they depend on
+	// the call: the translated function takes a parameter o_M : <trace> -> (results) that is applied to the trace
+	// (which already contains the call); only with "typed" seams
+	Oracle []string `json:"oracle"`
 }
 
 type seamSpec struct {
 	Field   string                `json:"field"`
 	Iface   string                `json:"iface"`
+	Typed   bool                  `json:"typed"` // events are GCall name [GNum x | GBytes b ...] (byte-slice arguments allowed)
+	Value   bool                  `json:"value"` // the field is a value (e.g. a sync.Spinlock), not a reference: no nil check
 	Methods map[string]seamMethod `json:"methods"`
 }
 
@@ -102,6 +125,8 @@ type sfield struct {
 	width int // >0 integer width, -4 = []byte or [N]byte, -6 = opaque reference (bool: non-nil), -7 = the event trace (seams)
 	signed bool
 	array  bool // [N]byte: slicing allowed (cap = len)
+	elem   int    // -4: element width (0 = 8); -8 = slice of structs `named`
+	named  string
 }
 
 var structFields = map[string][]sfield{}
@@ -114,6 +139,7 @@ type tinfo struct {
 	named string // named type for method resolution
 	signed bool  // Go int / int64: two's complement in [0, 2^64), signed comparisons
 	array bool   // byte array (slicing allowed)
+	elem  int    // element width of an integer slice (0 = 8); width -8 = slice of structs `named`, -9 = a struct value `named`
 }
 
 type env struct {
@@ -229,6 +255,7 @@ type translator struct {
 	inout     []string       // []byte parameters the body stores into: returned after the results
 	seamUsed  map[string]int // s_M_i -> width: seam results used, become parameters
 	seamRecv  string         // Coq term of the seam reference while translating a tuple assignment from a seam call
+	oracleUsed map[string]string // o_M -> Coq type: seam oracles used, become parameters
 }
 
 // ctx: where break / continue / return lead at the current point of the translation
@@ -274,6 +301,10 @@ func coqTy(ti tinfo) string {
 		return "option string"
 	case ti.width == -4:
 		return "list N"
+	case ti.width == -8:
+		return "list " + recName(structPkg[ti.named], ti.named)
+	case ti.width == -9:
+		return recName(structPkg[ti.named], ti.named)
 	}
 	fail("no Coq type for type code %d", ti.width)
 	return ""
@@ -363,6 +394,47 @@ func assigned(stmts []ast.Stmt, out map[string]bool) {
 	}
 }
 
+// seamArgs translates the arguments of a call through the seam (typed seams tag them GNum / GBytes)
+func (tr *translator) seamArgs(call *ast.CallExpr, en *env) []string {
+	sp, _ := tr.seam()
+	var args []string
+	for _, a := range call.Args {
+		as, at := tr.expr(a, en)
+		if sp.Typed {
+			if at.width == -4 {
+				as = "(GBytes " + as + ")"
+			} else if at.width >= 0 {
+				as = "(GNum " + as + ")"
+			} else {
+				fail("%s: unsupported argument type in a call through the seam", tr.fn.Name)
+			}
+		} else if at.width < 0 {
+			fail("%s: a non-integer argument in a call through an untyped seam", tr.fn.Name)
+		}
+		args = append(args, as)
+	}
+	return args
+}
+
+func oracleTy(t string) tinfo {
+	switch t {
+	case "int", "int64":
+		return tinfo{width: 64, signed: true}
+	case "error":
+		return tinfo{width: -2}
+	case "uint8":
+		return tinfo{width: 8}
+	case "uint16":
+		return tinfo{width: 16}
+	case "uint32":
+		return tinfo{width: 32}
+	case "uint64", "uint":
+		return tinfo{width: 64}
+	}
+	fail("unsupported oracle result type %s", t)
+	return tinfo{}
+}
+
 // carried: the variables in scope at a loop that the loop assigns (sorted), i.e. the loop-carried locals
 func carried(en *env, stmts []ast.Stmt) []string {
 	as := map[string]bool{}
@@ -402,6 +474,9 @@ func (tr *translator) seamCall(e ast.Expr, en *env) (recv string, name string, m
 	}
 	if f, isF := tr.recvField(sel.X); isF && f.name == sp.Field {
 		recv = "(" + fieldName(tr.mon, f.name) + " " + v(tr.ptrRecv) + ")"
+		if sp.Value {
+			recv = "true"
+		}
 	} else if id, isId := sel.X.(*ast.Ident); isId && en.vars[id.Name].width == -6 {
 		recv = v(id.Name)
 	} else {
@@ -416,6 +491,15 @@ func (tr *translator) seamCall(e ast.Expr, en *env) (recv string, name string, m
 
 // event: the record with the event GEv "name" [args] pushed on the trace
 func (tr *translator) event(name string, args []string) string {
+	if sp, _ := tr.seam(); sp.Typed {
+		lst := "nil"
+		for i := len(args) - 1; i >= 0; i-- {
+			lst = args[i] + " :: " + lst
+		}
+		tf := sfield{name: "trace", width: -7}
+		cur := "(" + fieldName(tr.mon, "trace") + " " + v(tr.ptrRecv) + ")"
+		return tr.setField(tf, fmt.Sprintf("((GCall %q%%string (%s)) :: %s)", name, lst, cur))
+	}
 	lst := "nil"
 	for i := len(args) - 1; i >= 0; i-- {
 		lst = args[i] + " :: " + lst
@@ -528,7 +612,23 @@ func (tr *translator) expr(e ast.Expr, en *env) (string, tinfo) {
 		}
 	case *ast.SelectorExpr:
 		if f, ok := tr.recvField(t); ok {
-			return "(" + fieldName(tr.mon, f.name) + " " + v(tr.ptrRecv) + ")", tinfo{width: f.width, signed: f.signed, array: f.array}
+			return "(" + fieldName(tr.mon, f.name) + " " + v(tr.ptrRecv) + ")", tinfo{width: f.width, signed: f.signed, array: f.array, elem: f.elem, named: f.named}
+		}
+		if cfg.Gres && tr.mon != "" {
+			// a field of a struct VALUE: an element of a slice of structs, or a local copy of one
+			_, isIx := t.X.(*ast.IndexExpr)
+			id, isId := t.X.(*ast.Ident)
+			if isIx || (isId && en.vars[id.Name].width == -9) {
+				xs, xt := tr.expr(t.X, en)
+				if xt.width == -9 {
+					for _, f := range structFields[xt.named] {
+						if f.name == t.Sel.Name {
+							return "(" + fieldName(xt.named, f.name) + " " + xs + ")", tinfo{width: f.width, signed: f.signed, array: f.array, elem: f.elem, named: f.named}
+						}
+					}
+					fail("%s: no field %s in %s", tr.fn.Name, t.Sel.Name, xt.named)
+				}
+			}
 		}
 		txt := exprText(t)
 		if c, ok := cfg.Consts[txt]; ok {
@@ -551,14 +651,34 @@ func (tr *translator) expr(e ast.Expr, en *env) (string, tinfo) {
 				} else {
 					tr.pre = append(tr.pre, fmt.Sprintf("match gidx %s %s with None => %s | Some %s =>", xs, is, panicTok(), tmp))
 				}
+				if xt.elem > 0 {
+					return tmp, tinfo{width: xt.elem}
+				}
 				return tmp, tinfo{width: 8}
+			}
+			if xt.width == -8 && cfg.Gres {
+				// an element of a slice of structs (a copy of the struct value)
+				if tr.noHoist > 0 {
+					fail("%s: index expression under && or ||", tr.fn.Name)
+				}
+				is, it := tr.expr(t.Index, en)
+				tmp := tr.tmp()
+				if it.signed {
+					tr.pre = append(tr.pre, matchOpt(fmt.Sprintf("gidxsA %d %s %s", it.width, xs, is), tmp))
+				} else {
+					tr.pre = append(tr.pre, matchOpt(fmt.Sprintf("gidxA %s %s", xs, is), tmp))
+				}
+				return tmp, tinfo{width: -9, named: xt.named}
 			}
 		}
 	case *ast.SliceExpr:
 		// a[lo:hi] of a byte ARRAY (cap = len): bounds-checked, hoisted
 		if tr.mon != "" && cfg.Gres && !t.Slice3 {
 			xs, xt := tr.expr(t.X, en)
-			if xt.width == -4 && xt.array {
+			_, isLocal := t.X.(*ast.Ident)
+			if xt.width == -4 && (xt.array || isLocal) {
+				// (for a []byte parameter the capacity is taken to be the length: a slice beyond len within cap,
+				// legal in Go, is reported as a panic)
 				if tr.noHoist > 0 {
 					fail("%s: slice expression under && or ||", tr.fn.Name)
 				}
@@ -592,6 +712,14 @@ func (tr *translator) expr(e ast.Expr, en *env) (string, tinfo) {
 		switch t.Op {
 		case token.NOT:
 			return "(negb " + x + ")", tinfo{width: -1}
+		case token.SUB:
+			if cfg.Gres {
+				if ti.width > 0 {
+					return fmt.Sprintf("(gsub %d 0 %s)", ti.width, x), ti
+				}
+				// -c for an untyped constant: the width comes from the context (a return of a typed result)
+				return "(UNTYPED_NEG " + x + ")", tinfo{width: 0}
+			}
 		case token.XOR:
 			if ti.width > 0 {
 				return fmt.Sprintf("(gnot %d %s)", ti.width, x), ti
@@ -715,6 +843,9 @@ func (tr *translator) expr(e ast.Expr, en *env) (string, tinfo) {
 					return "(glen " + xs + ")", tinfo{width: 64, signed: true} // len is an int
 				}
 				return "(glen " + xs + ")", tinfo{width: 0}
+			}
+			if xt.width == -8 && cfg.Gres {
+				return "(glenA " + xs + ")", tinfo{width: 64, signed: true}
 			}
 		}
 		// make([]byte, n): n zero bytes (a negative or huge n is a panic)
@@ -923,7 +1054,11 @@ func (tr *translator) block(stmts []ast.Stmt, en *env, k func(en *env) string) s
 		for i, r := range s.Results {
 			x, ti := tr.expr(r, en)
 			if i < len(tr.results) && tr.results[i].width > 0 && ti.width == 0 {
-				x = tr.wrap(tr.results[i].width, x)
+				if strings.HasPrefix(x, "(UNTYPED_NEG ") {
+					x = fmt.Sprintf("(gsub %d 0 %s", tr.results[i].width, strings.TrimPrefix(x, "(UNTYPED_NEG "))
+				} else {
+					x = tr.wrap(tr.results[i].width, x)
+				}
 			}
 			vals = append(vals, x)
 		}
@@ -952,34 +1087,73 @@ func (tr *translator) block(stmts []ast.Stmt, en *env, k func(en *env) string) s
 			}
 			return tr.block(append(seq, stmts[1:]...), en, k)
 		}
-		if len(s.Rhs) == 1 && len(s.Lhs) > 1 && s.Tok == token.ASSIGN && cfg.Gres {
-			// a, b = x.M(args) through the seam: the results are parameters s_M_i of the translation
+		if len(s.Rhs) == 1 && len(s.Lhs) > 1 && (s.Tok == token.ASSIGN || s.Tok == token.DEFINE) && cfg.Gres {
+			// a, b = x.M(args) through the seam: the results are parameters s_M_i of the translation, or, with an
+			// oracle, the value of o_M on the trace that already contains this call
 			if recv, name, m, call, ok := tr.seamCall(s.Rhs[0], en); ok {
-				if len(m.Results) != len(s.Lhs) {
-					fail("%s: %s returns %d values in the config", tr.fn.Name, name, len(m.Results))
+				nres := len(m.Results)
+				if len(m.Oracle) > 0 {
+					nres = len(m.Oracle)
 				}
-				var args []string
-				for _, a := range call.Args {
-					as, _ := tr.expr(a, en)
-					args = append(args, as)
+				if nres != len(s.Lhs) {
+					fail("%s: %s returns %d values in the config", tr.fn.Name, name, nres)
 				}
+				args := tr.seamArgs(call, en)
 				pre := tr.takePre()
 				var seq []ast.Stmt
-				for i, l := range s.Lhs {
-					sv := fmt.Sprintf("s_%s_%d", name, i)
-					tr.seamUsed[sv] = m.Results[i]
-					seq = append(seq, &ast.AssignStmt{Lhs: []ast.Expr{l}, Tok: token.ASSIGN, Rhs: []ast.Expr{ast.NewIdent(sv)}})
-				}
 				body := ""
 				if m.Record {
 					body = "let " + v(tr.ptrRecv) + " := " + tr.event(name, args) + " in\n  "
 				}
-				body += tr.block(append(seq, stmts[1:]...), en, k)
+				en2 := en
+				if len(m.Oracle) > 0 {
+					if !m.Record {
+						fail("%s: an oracle needs a recorded call", tr.fn.Name)
+					}
+					tr.nloop++
+					en2 = en.clone()
+					var pats, tys []string
+					for i, l := range s.Lhs {
+						ov := fmt.Sprintf("or%d_%d", tr.nloop, i)
+						ti := oracleTy(m.Oracle[i])
+						en2.vars[ov] = ti
+						pats = append(pats, v(ov))
+						tys = append(tys, coqTy(ti))
+						seq = append(seq, &ast.AssignStmt{Lhs: []ast.Expr{l}, Tok: s.Tok, Rhs: []ast.Expr{ast.NewIdent(ov)}})
+					}
+					tr.oracleUsed["o_"+name] = "list gcall -> " + prodOf(tys)
+					body += "let '" + tupleOf(pats, "") + " := o_" + name + " (" + fieldName(tr.mon, "trace") + " " + v(tr.ptrRecv) + ") in\n  "
+				} else {
+					for i, l := range s.Lhs {
+						sv := fmt.Sprintf("s_%s_%d", name, i)
+						tr.seamUsed[sv] = m.Results[i]
+						seq = append(seq, &ast.AssignStmt{Lhs: []ast.Expr{l}, Tok: s.Tok, Rhs: []ast.Expr{ast.NewIdent(sv)}})
+					}
+				}
+				body += tr.block(append(seq, stmts[1:]...), en2, k)
 				return tr.wrapPre(pre, "if "+recv+"\n  then ("+body+")\n  else (GPanic)")
 			}
 		}
+		if len(s.Lhs) == len(s.Rhs) && len(s.Lhs) > 1 && s.Tok == token.DEFINE && cfg.Gres {
+			// a, b := x, y with new variables only: the right-hand sides cannot mention them
+			var seq []ast.Stmt
+			for i, l := range s.Lhs {
+				id, ok := l.(*ast.Ident)
+				if !ok {
+					fail("%s: unsupported := target", tr.fn.Name)
+				}
+				if _, dup := en.vars[id.Name]; dup {
+					fail("%s: %s := re-declares a variable", tr.fn.Name, id.Name)
+				}
+				seq = append(seq, &ast.AssignStmt{Lhs: []ast.Expr{l}, Tok: token.DEFINE, Rhs: []ast.Expr{s.Rhs[i]}})
+			}
+			return tr.block(append(seq, stmts[1:]...), en, k)
+		}
 		if len(s.Lhs) != 1 || len(s.Rhs) != 1 {
 			fail("%s: multiple assignment not supported", tr.fn.Name)
+		}
+		if tr.isPath(s.Lhs[0]) {
+			return tr.pathStore(s.Lhs[0], s.Tok, s.Rhs[0], en, rest)
 		}
 		if ix, ok := s.Lhs[0].(*ast.IndexExpr); ok && cfg.Gres && tr.mon != "" && s.Tok == token.ASSIGN {
 			// x[i] = e : the right-hand side is evaluated first, then the bounds-checked store
@@ -1137,15 +1311,14 @@ func (tr *translator) block(stmts []ast.Stmt, en *env, k func(en *env) string) s
 			}
 			// a call through the seam: recorded as an event; a nil reference panics
 			if recv, name, m, call, ok := tr.seamCall(s.X, en); ok {
-				var args []string
-				for _, a := range call.Args {
-					as, _ := tr.expr(a, en)
-					args = append(args, as)
-				}
+				args := tr.seamArgs(call, en)
 				pre := tr.takePre()
 				body := rest(en)
 				if m.Record {
 					body = "let " + v(tr.ptrRecv) + " := " + tr.event(name, args) + " in\n  " + body
+				}
+				if recv == "true" {
+					return tr.wrapPre(pre, body)
 				}
 				return tr.wrapPre(pre, "if "+recv+"\n  then ("+body+")\n  else (GPanic)")
 			}
@@ -1157,6 +1330,9 @@ func (tr *translator) block(stmts []ast.Stmt, en *env, k func(en *env) string) s
 		pre := tr.takePre(s.X)
 		return tr.wrapPre(pre, rest(en))
 	case *ast.IncDecStmt:
+		if tr.isPath(s.X) {
+			return tr.pathStore(s.X, s.Tok, nil, en, rest)
+		}
 		if f, ok := tr.recvField(s.X); ok {
 			cur := "(" + fieldName(tr.mon, f.name) + " " + v(tr.ptrRecv) + ")"
 			val := tr.wrap(f.width, "("+cur+" + 1)")
@@ -1225,6 +1401,20 @@ func (tr *translator) block(stmts []ast.Stmt, en *env, k func(en *env) string) s
 		if s.Init != nil {
 			return tr.block(append([]ast.Stmt{s.Init, &ast.IfStmt{Cond: s.Cond, Body: s.Body, Else: s.Else}}, stmts[1:]...), en, k)
 		}
+		if be, ok := s.Cond.(*ast.BinaryExpr); ok && cfg.Gres && (be.Op == token.LOR || be.Op == token.LAND) && needsHoist(be.Y) {
+			// a || b / a && b where b reads an element: Go evaluates b only when needed
+			var els ast.Stmt = s.Else
+			if els == nil {
+				els = &ast.BlockStmt{}
+			}
+			var first ast.Stmt
+			if be.Op == token.LOR {
+				first = &ast.IfStmt{Cond: be.X, Body: s.Body, Else: &ast.IfStmt{Cond: be.Y, Body: s.Body, Else: els}}
+			} else {
+				first = &ast.IfStmt{Cond: be.X, Body: &ast.BlockStmt{List: []ast.Stmt{&ast.IfStmt{Cond: be.Y, Body: s.Body, Else: els}}}, Else: els}
+			}
+			return tr.block(append([]ast.Stmt{first}, stmts[1:]...), en, k)
+		}
 		c, _ := tr.expr(s.Cond, en)
 		pre := tr.takePre(s.Cond)
 		after := rest
@@ -1276,6 +1466,141 @@ func (tr *translator) block(stmts []ast.Stmt, en *env, k func(en *env) string) s
 	}
 	fail("%s: unsupported statement %T", tr.fn.Name, stmts[0])
 	return ""
+}
+
+// isPath: an lvalue that goes through an element of a slice of structs or a nested slice (handled by writePath)
+func (tr *translator) isPath(e ast.Expr) bool {
+	if !cfg.Gres || tr.mon == "" {
+		return false
+	}
+	switch t := e.(type) {
+	case *ast.SelectorExpr:
+		if _, ok := tr.recvField(t); ok {
+			return false
+		}
+		_, isIx := t.X.(*ast.IndexExpr)
+		return isIx
+	case *ast.IndexExpr:
+		if _, ok := tr.recvField(t.X); ok {
+			f, _ := tr.recvField(t.X)
+			return f.width == -8 || (f.width == -4 && f.elem > 8)
+		}
+		if sel, ok := t.X.(*ast.SelectorExpr); ok {
+			return tr.isPath(sel)
+		}
+	}
+	return false
+}
+
+// writePath: the receiver record after storing val at the lvalue e, which is recv.f, P[i] or P.g for an lvalue P;
+// every index is bounds-checked (hoisted), a struct element is read, updated with its setter and written back
+func (tr *translator) writePath(e ast.Expr, val string, en *env) string {
+	switch t := e.(type) {
+	case *ast.SelectorExpr:
+		if f, ok := tr.recvField(t); ok {
+			return tr.setField(f, val)
+		}
+		bs, bt := tr.expr(t.X, en)
+		if bt.width == -9 {
+			for _, f := range structFields[bt.named] {
+				if f.name == t.Sel.Name {
+					return tr.writePath(t.X, "(set_"+fieldName(bt.named, f.name)+" "+bs+" "+val+")", en)
+				}
+			}
+		}
+	case *ast.IndexExpr:
+		bs, bt := tr.expr(t.X, en)
+		is, it := tr.expr(t.Index, en)
+		setter := ""
+		switch {
+		case bt.width == -4 && it.signed:
+			setter = fmt.Sprintf("gsets %d", it.width)
+		case bt.width == -4:
+			setter = "gset"
+		case bt.width == -8 && it.signed:
+			setter = fmt.Sprintf("gsetsA %d", it.width)
+		case bt.width == -8:
+			setter = "gsetA"
+		default:
+			fail("%s: store into something that is not a slice", tr.fn.Name)
+		}
+		tmp := tr.tmp()
+		tr.pre = append(tr.pre, matchOpt(fmt.Sprintf("%s %s %s %s", setter, bs, is, val), tmp))
+		return tr.writePath(t.X, tmp, en)
+	}
+	fail("%s: unsupported assignment target", tr.fn.Name)
+	return ""
+}
+
+// opAssign: the value of `cur op= rhs` at width w
+func (tr *translator) opAssign(tok token.Token, w int, cur, rhs string) string {
+	switch tok {
+	case token.ASSIGN:
+		return rhs
+	case token.ADD_ASSIGN, token.INC:
+		return tr.wrap(w, "("+cur+" + "+rhs+")")
+	case token.SUB_ASSIGN, token.DEC:
+		return fmt.Sprintf("(gsub %d %s %s)", w, cur, rhs)
+	case token.OR_ASSIGN:
+		return "(N.lor " + cur + " " + rhs + ")"
+	case token.AND_ASSIGN:
+		return "(N.land " + cur + " " + rhs + ")"
+	case token.AND_NOT_ASSIGN:
+		return "(N.ldiff " + cur + " " + rhs + ")"
+	case token.XOR_ASSIGN:
+		return "(N.lxor " + cur + " " + rhs + ")"
+	}
+	fail("%s: unsupported assignment operator %v", tr.fn.Name, tok)
+	return ""
+}
+
+// pathStore: P = e, P op= e, P++ / P-- for a path lvalue (the right-hand side and the current value are read first)
+func (tr *translator) pathStore(lhs ast.Expr, tok token.Token, rhs ast.Expr, en *env, rest func(*env) string) string {
+	r, rt := "1", tinfo{width: 0}
+	if rhs != nil {
+		r, rt = tr.expr(rhs, en)
+	}
+	cur, ct := "", tinfo{}
+	if tok != token.ASSIGN {
+		cur, ct = tr.expr(lhs, en)
+	} else {
+		saved := tr.pre
+		_, ct = tr.expr(lhs, en) // for the type only
+		tr.pre = saved
+	}
+	if ct.width <= 0 {
+		fail("%s: only integer elements and fields can be assigned through a path", tr.fn.Name)
+	}
+	if rt.width == 0 && tok == token.ASSIGN {
+		r = tr.wrap(ct.width, r)
+	}
+	val := tr.opAssign(tok, ct.width, cur, r)
+	upd := tr.writePath(lhs, val, en)
+	var es []ast.Expr
+	if rhs != nil {
+		es = append(es, rhs)
+	}
+	pre := tr.takePre(es...)
+	return tr.wrapPre(pre, "let "+v(tr.ptrRecv)+" := "+upd+" in\n  "+rest(en))
+}
+
+// needsHoist: does evaluating e involve a bounds-checked read or a call that must be hoisted?
+func needsHoist(e ast.Expr) bool {
+	found := false
+	ast.Inspect(e, func(n ast.Node) bool {
+		switch c := n.(type) {
+		case *ast.IndexExpr, *ast.SliceExpr:
+			found = true
+		case *ast.CallExpr:
+			if id, ok := c.Fun.(*ast.Ident); !ok || (id.Name != "len") {
+				if _, isSel := c.Fun.(*ast.SelectorExpr); isSel {
+					found = true
+				}
+			}
+		}
+		return !found
+	})
+	return found
 }
 
 // statePat: the loop-carried state (the receiver record and the listed locals) as a pattern/value and its type
@@ -1336,7 +1661,7 @@ func (tr *translator) forLoop(s *ast.ForStmt, en *env, rest func(*env) string) s
 func (tr *translator) rangeLoop(s *ast.RangeStmt, en *env, rest func(*env) string) string {
 	id, ok := s.X.(*ast.Ident)
 	if !ok || en.vars[id.Name].width != -4 {
-		fail("%s: range over something that is not a local byte slice", tr.fn.Name)
+		return tr.rangeExprLoop(s, en, rest)
 	}
 	names := carried(en, []ast.Stmt{s.Body})
 	for _, n := range names {
@@ -1387,6 +1712,95 @@ func (tr *translator) rangeLoop(s *ast.RangeStmt, en *env, rest func(*env) strin
 	})
 	loop := tr.emitLoop(pat, ty, step, func() string { return restC(en) })
 	return "let " + v(hidden) + " := 0 in\n  " + loop
+}
+
+// for k, x := range E for a slice-valued field path E (a slice of integers or of structs): len(E) is taken once,
+// x is read (bounds-checked) from the CURRENT contents at every iteration, as Go reads the shared backing array;
+// the body must not assign a slice header (checked), so the length stays what it was
+func (tr *translator) rangeExprLoop(s *ast.RangeStmt, en *env, rest func(*env) string) string {
+	ast.Inspect(s.Body, func(n ast.Node) bool {
+		if as, ok := n.(*ast.AssignStmt); ok {
+			for _, l := range as.Lhs {
+				if sel, ok := l.(*ast.SelectorExpr); ok {
+					for _, fs := range structFields {
+						for _, f := range fs {
+							if f.name == sel.Sel.Name && (f.width == -4 || f.width == -8) {
+								fail("%s: the body of a range loop assigns the slice field %s", tr.fn.Name, f.name)
+							}
+						}
+					}
+				}
+			}
+		}
+		return true
+	})
+	xs, xt := tr.expr(s.X, en)
+	if xt.width != -4 && xt.width != -8 {
+		fail("%s: range over something that is not a slice", tr.fn.Name)
+	}
+	pre := tr.takePre()
+	lenf := "glen"
+	if xt.width == -8 {
+		lenf = "glenA"
+	}
+	tr.nloop++
+	hidden := fmt.Sprintf("rng%d", tr.nloop)
+	hlen := fmt.Sprintf("rnglen%d", tr.nloop)
+	names := carried(en, []ast.Stmt{s.Body})
+	en2 := en.clone()
+	en2.vars[hidden] = tinfo{width: 64} // non-negative: read with the unsigned index operations
+	en2.vars[hlen] = tinfo{width: 64}
+	name := func(e ast.Expr) string {
+		if e == nil {
+			return ""
+		}
+		kid, ok := e.(*ast.Ident)
+		if !ok || (s.Tok != token.DEFINE && kid.Name != "_") {
+			fail("%s: range variables must be declared by the loop", tr.fn.Name)
+		}
+		if kid.Name == "_" {
+			return ""
+		}
+		if _, dup := en.vars[kid.Name]; dup {
+			fail("%s: range variable %s shadows a variable of an enclosing scope", tr.fn.Name, kid.Name)
+		}
+		return kid.Name
+	}
+	key, val := name(s.Key), name(s.Value)
+	all := append(append([]string{}, names...), hidden)
+	pat, ty := tr.statePat(all, en2)
+	restC := tr.capture(rest)
+	nextPat, _ := tr.statePat(append(append([]string{}, names...), "\x00"), en2)
+	nextPat = strings.Replace(nextPat, v("\x00"), "("+v(hidden)+" + 1)", 1)
+	next := func(*env) string { return "(GOk (GNext " + nextPat + "))" }
+	brk := func(*env) string { return "(GOk (GBreak " + pat + "))" }
+	step := tr.withCtx(ctx{brk: brk, cont: next, loopDepth: tr.cx.loopDepth + 1}, func() string {
+		var seq []ast.Stmt
+		body := ""
+		en3 := en2.clone()
+		if val != "" {
+			// x := E[hidden], read now
+			es, et := tr.expr(&ast.IndexExpr{X: s.X, Index: ast.NewIdent(hidden)}, en2)
+			p2 := tr.takePre()
+			en3.vars[val] = et
+			inner := ""
+			if key != "" {
+				en3.vars[key] = tinfo{width: 64, signed: true}
+				inner += "let " + v(key) + " := " + v(hidden) + " in\n  "
+			}
+			inner += "let " + v(val) + " := " + es + " in\n  " + tr.block(append(seq, s.Body.List...), en3, next)
+			body = tr.wrapPre(p2, inner)
+		} else {
+			if key != "" {
+				en3.vars[key] = tinfo{width: 64, signed: true}
+				body += "let " + v(key) + " := " + v(hidden) + " in\n  "
+			}
+			body += tr.block(s.Body.List, en3, next)
+		}
+		return "if (" + v(hidden) + " <? " + v(hlen) + ")\n  then (" + body + ")\n  else (" + brk(en2) + ")"
+	})
+	loop := tr.emitLoop(pat, ty, step, func() string { return restC(en) })
+	return tr.wrapPre(pre, "let "+v(hlen)+" := ("+lenf+" "+xs+") in\n  let "+v(hidden)+" := 0 in\n  "+loop)
 }
 
 // switch: an if / else-if chain in the order of the clauses, default last; the tag is evaluated once;
@@ -1521,6 +1935,12 @@ func main() {
 						if el := typeOf(at.Elt, file.Name.Name); el.width == 8 {
 							sf.width = -4
 							sf.array = at.Len != nil
+						} else if cfg.Gres && at.Len == nil && el.width > 8 && !el.signed {
+							sf.width = -4 // a slice of unsigned integers wider than a byte
+							sf.elem = el.width
+						} else if cfg.Gres && at.Len == nil && el.width == -5 {
+							sf.width = -8 // a slice of structs
+							sf.named = el.named
 						}
 					} else if ti := typeOf(fl.Type, file.Name.Name); ti.width > 0 {
 						if ti.signed && !cfg.Gres {
@@ -1530,6 +1950,15 @@ func main() {
 						sf.signed = ti.signed
 					}
 					for _, n := range fl.Names {
+						skip := false
+						for _, ig := range cfg.Ignore[st] {
+							if ig == n.Name {
+								skip = true
+							}
+						}
+						if skip {
+							continue
+						}
 						w := sf.width
 						for _, o := range cfg.Opaque[st] {
 							if o == n.Name {
@@ -1539,7 +1968,7 @@ func main() {
 						if w == 0 {
 							fail("struct %s: unsupported type of field %s", st, n.Name)
 						}
-						structFields[st] = append(structFields[st], sfield{name: n.Name, width: w, signed: sf.signed && w > 0, array: sf.array && w == -4})
+						structFields[st] = append(structFields[st], sfield{name: n.Name, width: w, signed: sf.signed && w > 0, array: sf.array && w == -4, elem: sf.elem, named: sf.named})
 					}
 				}
 			}
@@ -1550,6 +1979,33 @@ func main() {
 		if _, ok := cfg.Seams[st]; ok && cfg.Gres {
 			structFields[st] = append(structFields[st], sfield{name: "trace", width: -7})
 		}
+	}
+	// records are printed after the records their fields mention
+	printed := map[string]bool{}
+	var order []string
+	for len(order) < len(snames) {
+		progress := false
+		for _, st := range snames {
+			if printed[st] {
+				continue
+			}
+			ready := true
+			for _, f := range structFields[st] {
+				if f.width == -8 && !printed[f.named] {
+					ready = false
+				}
+			}
+			if ready {
+				printed[st] = true
+				order = append(order, st)
+				progress = true
+			}
+		}
+		if !progress {
+			fail("cyclic struct declarations")
+		}
+	}
+	for _, st := range order {
 		rn := recName(structPkg[st], st)
 		var fds []string
 		for _, f := range structFields[st] {
@@ -1560,8 +2016,14 @@ func main() {
 			if f.width == -6 {
 				ty = "bool"
 			}
+			if f.width == -8 {
+				ty = "list " + recName(structPkg[f.named], f.named)
+			}
 			if f.width == -7 {
 				ty = "list gevent"
+				if cfg.Seams[st].Typed {
+					ty = "list gcall"
+				}
 			}
 			fds = append(fds, fieldName(st, f.name)+" : "+ty)
 		}
@@ -1618,7 +2080,7 @@ func main() {
 		if decl == nil {
 			fail("function %s.%s not found in %s", spec.Recv, spec.Name, spec.File)
 		}
-		tr := &translator{pkg: spec.Pkg, fn: spec, funcs: funcs, usedGlob: map[string]bool{}, seamUsed: map[string]int{}}
+		tr := &translator{pkg: spec.Pkg, fn: spec, funcs: funcs, usedGlob: map[string]bool{}, seamUsed: map[string]int{}, oracleUsed: map[string]string{}}
 		en := &env{vars: map[string]tinfo{}}
 		var params []string
 		if decl.Recv != nil {
@@ -1750,6 +2212,14 @@ func main() {
 		sort.Strings(svs)
 		for _, sv := range svs {
 			params = append(params, "("+sv+" : N)")
+		}
+		var ovs []string
+		for ov := range tr.oracleUsed {
+			ovs = append(ovs, ov)
+		}
+		sort.Strings(ovs)
+		for _, ov := range ovs {
+			params = append(params, "("+ov+" : "+tr.oracleUsed[ov]+")")
 		}
 		if len(tr.results) == 1 && len(tr.globals) == 0 && tr.ptrRecv == "" {
 			resultTypes[name] = tr.results[0]
